@@ -380,7 +380,8 @@ class Recorder:
             chunk_end = pos + n
             cur = pos
             guard = 0
-            while cur < chunk_end or (cur == chunk_end and n == 0 and guard == 0):
+            reinvoke = False
+            while cur < chunk_end or reinvoke or (n == 0 and guard == 0):
                 guard += 1
                 piece = data[cur:chunk_end]
                 cmd = 'F ' + (piece.hex() if piece else '-')
@@ -396,13 +397,13 @@ class Recorder:
                     cur = chunk_end
                     break
                 if rc.startswith('YIELD_'):
-                    # resume where the parser says (indirect mode is implied by yield support)
+                    # documented usage (example/lexer_test.c): re-invoke with the pointer left as reported until OK,
+                    # also when the pointer already reached the end of the chunk
                     adv = e['adv'] if e['adv'] >= 0 else len(piece)
                     cur += adv
+                    reinvoke = True
                     if guard > 4 * (n + 2):
                         terminal = 'YIELD_LIVELOCK'
-                        break
-                    if n == 0:
                         break
                     continue
                 terminal = rc
